@@ -142,8 +142,31 @@ def gen_case(rnd):
     elif vr < 0.5:
         vkind = 'column'
         V = [[rnd.uniform(0, 1e-4)], [rnd.uniform(0, 1e-4)], [rnd.uniform(0, 1e-3)]]
-    return {'zone': zone, 'east': e, 'north': n, 'h': h, 'vcv': V, 'vkind': vkind, 'edge': edge,
+    case = {'zone': zone, 'east': e, 'north': n, 'h': h, 'vcv': V, 'vkind': vkind, 'edge': edge,
             'direction': rnd.choice(['94->2020', '2020->94'])}
+    # how the same call is delivered: numbers as int / numpy scalars / a float subclass (whole metres for the integer kinds:
+    # a height read from an integer array), the covariance in another layout or dtype, arguments by keyword
+    rep = core.choose_rep(rnd, 0.1)
+    if rep:
+        case['rep'] = rep
+        if core.rep_wants_integers(rep) and not edge:
+            case['east'], case['north'] = float(round(e)), float(round(n))
+            if h is not None:
+                case['h'] = float(round(h))
+    if V is not None:
+        vrep = core.choose_array_rep(rnd, 0.2)
+        if vkind in ('column', 'diag') and rnd.random() < 0.15:
+            # whole-number variances in an integer dtype
+            k = 3 if vkind == 'column' else 9
+            vals = [float(rnd.randint(0, 9)) for _ in range(3)]
+            case['vcv'] = [[vals[0]], [vals[1]], [vals[2]]] if vkind == 'column' else [[vals[0], 0.0, 0.0], [0.0, vals[1], 0.0], [0.0, 0.0, vals[2]]]
+            vrep = 'int64'
+        if vrep:
+            case['vrep'] = vrep
+    shape = core.choose_shape(rnd, 0.08)
+    if shape:
+        case['shape'] = shape
+    return case
 
 
 def ground_distance(lat_a, lon_a, lat_b, lon_b):
@@ -161,16 +184,24 @@ def ground_distance(lat_a, lon_a, lat_b, lon_b):
 KEEPER = [None]        # core.ResultKeeper of the running shard: returned covariances must keep their values
 
 
-def call(ns, direction, zone, e, n, h, V):
+def call(ns, direction, zone, e, n, h, V, case=None, ctx=None):
     T = ns.transform
     fn = T.transform_mga94_to_mga2020 if direction == '94->2020' else T.transform_mga2020_to_mga94
-    kw = {}
-    if V is not None:
-        kw['vcv'] = V
+    case = case or {}
+    rep, shape = case.get('rep'), case.get('shape')
+    if V is not None and case.get('vrep'):
+        V = core.rep_array(case['vrep'], np.asarray(V))
+    if ctx is not None:
+        for k, label in ((rep, 'argument_representation:'), (shape, 'call_shape:'), (case.get('vrep') if V is not None else None, 'covariance_delivered_as:')):
+            if k:
+                ctx.count(label + k)
     keeper = KEEPER[0]
     if keeper is not None:
         keeper.verify()
-    res = fn(zone, e, n, **kw) if h is None else fn(zone, e, n, h, **kw)
+    omit = tuple(nm for nm, v in (('ell_ht', h), ('vcv', V)) if v is None)
+    res = core.shaped_call(fn, ['zone', 'east', 'north', 'ell_ht', 'vcv'],
+                           list(core.rep_values(rep, zone, e, n)) + [core.rep_value(rep, h), V],
+                           shape or ('keywords' if ('ell_ht' in omit and V is not None) else None), omit)
     if keeper is not None:
         keeper.verify()
         keeper.keep(res, {'direction': direction, 'zone': zone, 'east': e, 'north': n, 'h': h,
@@ -193,7 +224,7 @@ def judge(ns, ctx, case):
                case.get('vkind'), case.get('edge'))
     Vin = None if V is None else V.copy()
     try:
-        r = call(ns, direction, zone, e, n, h, V)
+        r = call(ns, direction, zone, e, n, h, V, case, ctx)
     except Exception as ex:
         mech = 'wrapper:exception'
         if V is not None:
